@@ -142,6 +142,7 @@ PROPS = {
         harnesses=[
             dict(run="pkg/server/etcd.VerifC16Classify", quick=dict(maxcmp=1, maxfail=1), thorough=dict(maxcmp=2, maxfail=1), covers=["rejected", "executed-create", "executed-update", "executed-delete", "compact-probe"]),
             dict(run="pkg/server/etcd.VerifC16Answers", quick=dict(ops=2, keys=2), thorough=dict(ops=3, keys=2), covers=["create-ok", "update-ok", "update-failed", "delete-ok", "delete-failed", "unguarded-delete-ok", "list-cut", "done"]),
+            dict(run="pkg/server/etcd.VerifC16Answers", name="C16_answers3", quick=dict(ops=3, keys=1), thorough=dict(ops=4, keys=1), covers=["create-ok", "update-failed", "delete-ok", "done"]),
             dict(run="pkg/server/etcd.VerifC16WatchMapping", quick=dict(keys=1), thorough=dict(keys=2), covers=["put-event", "delete-event", "no-event", "replayed-from-cache"]),
         ],
         bounds=dict(quick="transactions with 0..1 compares (target MOD/VERSION/CREATE, result EQUAL/GREATER/NOT_EQUAL, 2 keys + the compaction key, symbolic revision), 0..2 success ops and 0..1 failure ops of kind put/range/delete-range with symbolic option flags and optional range_end; answers: histories of 2 supported transactions over 2 keys with symbolic expected revisions, then get / list (limits 0..n+1) / count-only; watch mapping: 1 write before and 1 after the watch",
